@@ -24,7 +24,7 @@ use vh::gsupport::{ev, take_events};
 
 
 def key(s):
-    return "/".join([s["recv"], f"body{s['body']}", s["sig"], s["clause"], s["mode"], s["order"]]) + ("/" + s["final"] if s.get("final", "drop") != "drop" else "")
+    return "/".join([s["recv"], f"body{s['body']}", s["sig"], s["clause"], s["mode"], s["order"]]) + ("/" + s["final"] if s.get("final", "drop") != "drop" else "") + ("/with-unmock-fn" if s.get("unm") else "")
 
 
 def recv_decl(recv):
@@ -99,7 +99,18 @@ def render(idx, s):
     rd = recv_decl(recv)
     sized = ": Sized" if recv == "own" else ""
     rv_decl = f"        fn rv({rd}, x: u8) -> u64;\n" if body == "v" else ""
-    trait_src = f"""    #[unimock(api=Mk)]
+    unm_attr = ""
+    unm_fn = ""
+    if s.get("unm"):
+        # the provided method also has a real function registered: the default body still wins
+        n_before = 4 if body == "v" else 3
+        unm_attr = ", unmock_with=[" + ", ".join(["_"] * n_before + ["real_p"]) + "]"
+        unm_fn = """    pub fn real_p(_: &impl core::any::Any, x: u8) -> u64 {
+        ev(format!("real:{x}"));
+        9999
+    }
+"""
+    trait_src = unm_fn + f"""    #[unimock(api=Mk{unm_attr})]
     pub trait Tr{sized} {{
         fn r0(&self, x: u8) -> u64;
         fn r1(&self, x: u8) -> u64;
@@ -319,6 +330,8 @@ def shapes(tier):
                 out.append(dict(recv=recv, body=body, sig=sig, clause=clause, mode=mode, order=order, final="verify"))
             if body != "lent":
                 out.append(dict(recv=recv, body=body, sig=sig, clause=clause, mode=mode, order=order, final="unmet"))
+        if recv == "ref" and sig == "simple" and body in (0, 1, 2):
+            out.append(dict(recv=recv, body=body, sig=sig, clause=clause, mode=mode, order=order, unm=True))
     return out
 
 
